@@ -56,4 +56,11 @@ CHECKS = {
         "level_note": "maps and participant sets from a fixed catalogue; Go map iteration order inside computeMembership is not owned: replica cells are repeated 16 times",
         "budget_s": {"quick": 150, "thorough": 900},
     },
+    "C07": {
+        "pkg": "checks/c07", "level": "model_checking", "engine": "E1 bubble-net",
+        "technique": "stateless model checking: deviation-bounded DFS over delivery orders, timer advances, start orders and Byzantine injections on real disc.Member objects in a synctest bubble",
+        "level_text": "every schedule within the deviation bound for every universe (2..4, thorough 5), expected count, invoking subset and Byzantine member set; safety oracles on every completer, liveness oracle on honest complete runs",
+        "level_note": "FIFO links; Byzantine alphabet: membership/query/response with own, replayed and random tags and a catalogue of views; bounds per configuration in the case ids (dN)",
+        "budget_s": {"quick": 170, "thorough": 900},
+    },
 }
